@@ -275,6 +275,139 @@ fn run_session(c: &Corpus, r: &mut Rng, compressed: bool, style: u64, close: Clo
     Ok(())
 }
 
+/// The peer sends its last packets and closes at once, before the client has read anything: everything
+/// sent before the closure must still be delivered, then Disconnected.
+fn run_close_race(c: &Corpus, r: &mut Rng, compressed: bool, close: Close, per_message: usize, p: &mut Part) -> Result<(), String> {
+    let rt = tokio::runtime::Builder::new_current_thread().enable_all().build().map_err(|e| e.to_string())?;
+    let target = 200 + r.usize_below(1500);
+    let raw = make_stream(c, r, compressed, target, false);
+    // no keep-alives (the client would have to answer on a closed connection) and no ping/text messages
+    let (frames, _) = crate::transport::ref_frames(&raw, compressed);
+    let frames: Vec<Vec<u8>> = frames.into_iter().filter(|f| !(f.len() == 4 && f[1] == 3 && f[2] == 0 && f[3] == 0)).map(|f| f.to_vec()).collect();
+    let stream: Vec<u8> = frames.concat();
+    let msgs: Vec<Msg> = frames.chunks(per_message.max(1)).map(|ch| Msg::Bin(ch.concat())).collect();
+    let (expected, _) = expected_results(&stream, compressed);
+    let label = format!("close-race-{}-{:?}-{per_message}per", mode_name(compressed), close);
+    let out: Result<(Vec<ReadResult>, Option<ReadResult>), String> = rt.block_on(async {
+        let listener = TcpListener::bind("127.0.0.1:0").await.map_err(|e| e.to_string())?;
+        let addr = listener.local_addr().map_err(|e| e.to_string())?;
+        let server = tokio::spawn(serve(listener, msgs, close, 0));
+        let (ws, _) = tokio::time::timeout(WATCHDOG, tokio_tungstenite::connect_async(format!("ws://{addr}/connect"))).await.map_err(|_| "connect watchdog".to_string())?.map_err(|e| e.to_string())?;
+        let mut framed = tokio_impl::Framed::new(Box::new(tokio_impl::WebsocketStream::from(ws)), Codec::new(mode_of(compressed)));
+        // give the server time to finish sending and to close before the first read; if it has not closed by
+        // then the session merely degrades to an ordinary one (less coverage, never a wrong verdict)
+        tokio::time::sleep(Duration::from_millis(120)).await;
+        let mut results = vec![];
+        let mut end = None;
+        for _ in 0..expected.len() + 3 {
+            let r = tokio::time::timeout(WATCHDOG, framed.read()).await.map_err(|_| "read watchdog".to_string())?;
+            let r = classify(r);
+            if matches!(r, ReadResult::Disconnected | ReadResult::Io(_) | ReadResult::Other(_) | ReadResult::Timeout) {
+                end = Some(r);
+                break;
+            }
+            results.push(r);
+        }
+        let _ = tokio::time::timeout(Duration::from_secs(8), server).await;
+        Ok((results, end))
+    });
+    let (results, end) = out.map_err(|e| format!("{label}: {e}"))?;
+    p.evaluations += 1;
+    p.distinct(&(label.clone(), &stream));
+    let replay = json!({"label": label, "mode": mode_name(compressed), "close": format!("{:?}", close), "frames": expected.len(), "stream_head": hex(&stream[..stream.len().min(128)])});
+    if results != expected {
+        p.violation(
+            format!("C20/data-before-closure-lost/{:?}", close),
+            format!("{label}: the peer sent {} frames and then closed; the client received {} results before {:?}", expected.len(), results.len(), end),
+            replay.clone(),
+        );
+    }
+    if !matches!(end, Some(ReadResult::Disconnected)) {
+        p.violation(format!("C20/closure-not-disconnected/{:?}", close), format!("{label}: closure surfaced as {:?}", end), replay);
+    }
+    Ok(())
+}
+
+/// Writes under back-pressure: the peer stops reading, the kernel buffers (made small) fill up, the sink's
+/// flush returns Pending; every packet must still arrive exactly once, in order, one binary message each.
+pub fn run_backpressure_writes(c: &Corpus, r: &mut Rng, compressed: bool, nframes: usize, p: &mut Part, sig_prefix: &str) -> Result<(), String> {
+    use tokio::net::TcpSocket;
+    let rt = tokio::runtime::Builder::new_current_thread().enable_all().build().map_err(|e| e.to_string())?;
+    let mut to_write = vec![];
+    while to_write.len() < nframes {
+        let lay = if r.chance(1, 2) { c.spec.packet("MSL") } else { r.pick(c.kinds()) };
+        let o = GenOpts { text: TextMode::Ascii, max_list: Some(8), boundary: 4, hostile: false };
+        if let Ok((_, pk)) = c.packet(r, lay, &o) {
+            if let Enc::Ok(e) = real_encode(&pk, compressed) {
+                if e.len() <= limit(compressed) {
+                    to_write.push((pk, e));
+                }
+            }
+        }
+    }
+    let label = format!("backpressure-{}-{nframes}frames", mode_name(compressed));
+    let n = to_write.len();
+    let packets: Vec<insim::Packet> = to_write.iter().map(|x| x.0.clone()).collect();
+    let out: Result<Vec<Vec<u8>>, String> = rt.block_on(async {
+        let lsock = TcpSocket::new_v4().map_err(|e| e.to_string())?;
+        let _ = lsock.set_recv_buffer_size(4096);
+        lsock.bind("127.0.0.1:0".parse().unwrap()).map_err(|e| e.to_string())?;
+        let listener = lsock.listen(8).map_err(|e| e.to_string())?;
+        let addr = listener.local_addr().map_err(|e| e.to_string())?;
+        let server = tokio::spawn(async move {
+            let Ok((tcp, _)) = listener.accept().await else { return vec![] };
+            let Ok(mut ws) = tokio_tungstenite::accept_async(tcp).await else { return vec![] };
+            let mut got: Vec<Vec<u8>> = vec![];
+            // stall first, then read in bursts with pauses
+            tokio::time::sleep(Duration::from_millis(250)).await;
+            while got.len() < n {
+                match tokio::time::timeout(Duration::from_secs(30), ws.next()).await {
+                    Ok(Some(Ok(Message::Binary(b)))) => {
+                        got.push(b);
+                        if got.len() % 1000 == 0 {
+                            tokio::time::sleep(Duration::from_millis(40)).await;
+                        }
+                    },
+                    Ok(Some(Ok(_))) => {},
+                    _ => break,
+                }
+            }
+            // anything beyond the expected number of messages?
+            if let Ok(Some(Ok(Message::Binary(b)))) = tokio::time::timeout(Duration::from_millis(150), ws.next()).await {
+                got.push(b);
+            }
+            got
+        });
+        let csock = TcpSocket::new_v4().map_err(|e| e.to_string())?;
+        let _ = csock.set_send_buffer_size(4096);
+        let tcp = tokio::time::timeout(WATCHDOG, csock.connect(addr)).await.map_err(|_| "connect watchdog".to_string())?.map_err(|e| e.to_string())?;
+        let (ws, _) = tokio::time::timeout(WATCHDOG, tokio_tungstenite::client_async(format!("ws://{addr}/connect"), tokio_tungstenite::MaybeTlsStream::Plain(tcp)))
+            .await
+            .map_err(|_| "ws handshake watchdog".to_string())?
+            .map_err(|e| e.to_string())?;
+        let mut framed = tokio_impl::Framed::new(Box::new(tokio_impl::WebsocketStream::from(ws)), Codec::new(mode_of(compressed)));
+        for pk in packets {
+            tokio::time::timeout(WATCHDOG, framed.write(pk)).await.map_err(|_| "write watchdog".to_string())?.map_err(|e| format!("write failed: {e}"))?;
+        }
+        let got = tokio::time::timeout(WATCHDOG, server).await.map_err(|_| "server watchdog".to_string())?.map_err(|e| e.to_string())?;
+        Ok(got)
+    });
+    let got = out.map_err(|e| format!("{label}: {e}"))?;
+    p.evaluations += 1;
+    p.distinct(&(label.clone(), n));
+    let want: Vec<&Vec<u8>> = to_write.iter().map(|x| &x.1).collect();
+    if got.iter().collect::<Vec<_>>() != want {
+        let at = got.iter().zip(want.iter()).position(|(a, b)| &a != b).unwrap_or(got.len().min(want.len()));
+        let what = if got.len() > want.len() { "frame-duplicated-or-extra" } else if got.len() < want.len() { "frames-missing" } else { "frame-differs" };
+        p.violation(
+            format!("{sig_prefix}/websocket-backpressure/{what}"),
+            format!("{label}: {n} packets written while the peer was not reading; the peer received {} binary messages, first difference at message #{at}", got.len()),
+            json!({"label": label, "written": n, "received": got.len(), "first_difference": at}),
+        );
+    }
+    Ok(())
+}
+
 /// WebsocketStream driven directly through AsyncRead with caller buffers of chosen sizes.
 fn run_direct(r: &mut Rng, bufsize: usize, p: &mut Part) -> Result<(), String> {
     let rt = tokio::runtime::Builder::new_current_thread().enable_all().build().map_err(|e| e.to_string())?;
@@ -353,6 +486,23 @@ pub fn run(ctx: &mut Ctx) -> (&'static str, String, bool) {
                         Ok(()) => done += 1,
                         Err(e) => ctx.inconclusive(e),
                     }
+                }
+            }
+        }
+    }
+    // closure right after the last packets, before the client reads; writes under back-pressure
+    for rep in 0..if asan { 1 } else { ctx.tier.pick(2usize, 12usize) } {
+        for compressed in MODES {
+            for close in [Close::Frame, Close::Abrupt] {
+                for per in [1usize, 3, 50] {
+                    if let Err(e) = run_close_race(&c, &mut r, compressed, close, per, &mut p) {
+                        ctx.inconclusive(e);
+                    }
+                }
+            }
+            if rep == 0 {
+                if let Err(e) = run_backpressure_writes(&c, &mut r, compressed, if asan { 1500 } else { ctx.tier.pick(4000usize, 12000usize) }, &mut p, "C20") {
+                    ctx.inconclusive(e);
                 }
             }
         }
